@@ -321,6 +321,8 @@ LibPureOK(name, a, heap, off) ==     \* a = validated arguments
       [] name = "stringIndexOf" ->
             IF Ix(a[3]) >= Len(a[1].v) THEN RF(IntV(-1), heap) ELSE R(IntV(Find(a[1].v, a[2].v, Ix(a[3]))), heap)
       [] name = "stringLastIndexOf" ->
+            IF a[2].v = <<>> /\ a[3].t = "null" THEN R(AnyVal, heap)     \* empty search string: position unspecified
+            ELSE
             LET ix == IF a[3].t = "null" THEN Len(a[1].v) - 1 ELSE Ix(a[3]) IN
             IF ix >= Len(a[1].v) THEN RF(IntV(-1), heap) ELSE R(IntV(RFind(a[1].v, a[2].v, ix + Len(a[2].v))), heap)
       [] name = "stringLength" -> R(IntV(Len(a[1].v)), heap)
